@@ -797,17 +797,28 @@ fn run_stack(stack: u32, g: &G, pretty: bool, plan: &FaultPlan, guard_fail: (Opt
             let r = libcall("to_writer(&mut Box<Vec>)", || ser_to(&mut v, g, pretty))?;
             StackOutcome { name: "&mut Box<Vec<u8>>", result: r, delivered: *v, fault_during_call: false, fault_reached: false, protocol_violation: None, faultable: false }
         }
-        3 => {
-            trace::bump(C::stack_bytesmut);
-            let mut w = BytesMut::with_capacity(draw(64) as usize).writer();
-            let r = libcall("to_writer(Writer<BytesMut>)", || ser_to(&mut w, g, pretty))?;
-            StackOutcome { name: "Writer<BytesMut>", result: r, delivered: w.into_inner().to_vec(), fault_during_call: false, fault_reached: false, protocol_violation: None, faultable: false }
-        }
-        4 => {
-            trace::bump(C::stack_bytesmut_mut);
-            let mut b = BytesMut::new();
-            let r = libcall("to_writer(Writer<&mut BytesMut>)", || ser_to((&mut b).writer(), g, pretty))?;
-            StackOutcome { name: "Writer<&mut BytesMut>", result: r, delivered: b.to_vec(), fault_during_call: false, fault_reached: false, protocol_violation: None, faultable: false }
+        3 | 4 => {
+            // a BytesMut that already holds data and has some spare capacity (allocated in library scope,
+            // so it carries a tail canary: writing past its capacity is seen when it is freed)
+            let prefix_len = *pick(&[0usize, 0, 1, 7, 28, 64]);
+            let spare = *pick(&[0usize, 8, 40, 100, 128, 300, 1000]);
+            let mut b = crate::heap::lib(|| BytesMut::with_capacity(prefix_len + spare));
+            let prefix: Vec<u8> = (0..prefix_len).map(|k| b'#' + (k % 7) as u8).collect();
+            crate::heap::lib(|| b.extend_from_slice(&prefix));
+            let (r, name, all) = if stack == 3 {
+                trace::bump(C::stack_bytesmut);
+                let mut w = b.writer();
+                let r = libcall("to_writer(Writer<BytesMut>)", || ser_to(&mut w, g, pretty))?;
+                (r, "Writer<BytesMut>", libcall("into_inner", move || w.into_inner().to_vec())?)
+            } else {
+                trace::bump(C::stack_bytesmut_mut);
+                let r = libcall("to_writer(Writer<&mut BytesMut>)", || ser_to((&mut b).writer(), g, pretty))?;
+                (r, "Writer<&mut BytesMut>", libcall("to_vec", move || b.to_vec())?)
+            };
+            if !all.starts_with(&prefix) {
+                return Err(Violation::new("ser/writer-clobbered-existing-bytes", format!("{}: the {} bytes already in the buffer were changed", name, prefix_len)));
+            }
+            StackOutcome { name, result: r, delivered: all[prefix_len..].to_vec(), fault_during_call: false, fault_reached: false, protocol_violation: None, faultable: false }
         }
         5 | 6 => {
             trace::bump(C::stack_buffered);
